@@ -2,7 +2,7 @@
 network (Network, NetworkLink)."""
 from __future__ import annotations
 
-from props.c07_core import Backend, Drv, Entity
+from props.c07_core import Backend, Drv, Entity, P, R
 
 from happysimulator.components.load_balancer import (ConsistentHash, HealthChecker, IPHash, LeastConnections,
                                                      LeastResponseTime, LoadBalancer, PowerOfTwoChoices, Random,
@@ -102,7 +102,7 @@ class HealthCheckerDrv(Drv):
         self.b1 = _Flaky("b1", cfg.L)
         self.b2 = _Flaky("b2", cfg.L)
         self.lb = LoadBalancer("lb", backends=[self.b1, self.b2])
-        self.hc = HealthChecker("hc", load_balancer=self.lb, interval=1.0, timeout=0.75, healthy_threshold=1,
+        self.hc = HealthChecker("hc", load_balancer=self.lb, interval=P(1.0), timeout=P(0.75), healthy_threshold=1,
                                 unhealthy_threshold=1)
         return [self.b1, self.b2, self.lb, self.hc]
 
@@ -127,9 +127,9 @@ class JobSchedulerDrv(Drv):
 
     def build(self, cfg):
         self.worker = Backend("worker", cfg.L, self.h.out)
-        self.js = JobScheduler("jobs", tick_interval=0.5)
-        self.js.add_job(JobDefinition(name="a", target=self.worker, event_type="job_a", interval=1.0, priority=1))
-        self.js.add_job(JobDefinition(name="b", target=self.worker, event_type="job_b", interval=1.0, priority=2,
+        self.js = JobScheduler("jobs", tick_interval=P(0.5))
+        self.js.add_job(JobDefinition(name="a", target=self.worker, event_type="job_a", interval=P(1.0), priority=1))
+        self.js.add_job(JobDefinition(name="b", target=self.worker, event_type="job_b", interval=P(1.0), priority=2,
                                       depends_on=["a"]))
         return [self.worker, self.js]
 
@@ -138,7 +138,7 @@ class JobSchedulerDrv(Drv):
 
     def request(self, i, op):
         if op == "add_job":
-            self.js.add_job(JobDefinition(name=f"dyn{i}", target=self.worker, event_type="job_dyn", interval=0.5))
+            self.js.add_job(JobDefinition(name=f"dyn{i}", target=self.worker, event_type="job_dyn", interval=P(0.5)))
         else:
             self.a_enabled = not getattr(self, "a_enabled", True)
             if self.a_enabled:
